@@ -53,3 +53,19 @@ Theorem C04_unfaulted_encrypt_key_not_expired : forall svc prod t0 ops s payload
   end.
 Proof. exact unfaulted_encrypt_key_not_expired. Qed.
 Print Assumptions C04_unfaulted_encrypt_key_not_expired.
+
+(* clause 2 as a theorem over ALL histories: every metastore row an unfaulted Encrypt adds - a new intermediate key, a new system
+   key - names a parent key that is not expired at the time of the operation: no intermediate key is created under an expired
+   system key, whether the system key came from the cache, a reload, the metastore, was just created, or was adopted by the
+   duplicate fallback. *)
+Theorem C04_unfaulted_encrypt_creates_under_unexpired_keys : forall svc prod t0 ops s payload,
+  Forall (benign svc prod) ops ->
+  let h := snd (hrun (hinit t0) ops) in
+  let w := h_world h in
+  let w' := h_world (snd (hstep h (HEncrypt s payload []))) in
+  forall x fa, nth_error (w_sessions w) s = Some x -> nth_error (w_factories w) (ss_factory x) = Some fa ->
+    p_expire (fa_policy fa) >= p_precision (fa_policy fa) + sec -> p_expire (fa_policy fa) >= sec ->
+    forall i c r pm, store_find i c (w_store w') = Some r -> store_find i c (w_store w) = None -> e_parent r = Some pm ->
+      is_key_expired (w_now w) (km_created pm) (p_expire (fa_policy fa)) = false.
+Proof. exact unfaulted_encrypt_new_rows_fresh. Qed.
+Print Assumptions C04_unfaulted_encrypt_creates_under_unexpired_keys.
